@@ -119,6 +119,9 @@ def oracle(case, io, mo):
                         if t.startswith("resolve "):
                             newnotes.setdefault(int(m.group(1)), []).append(t)
                             notices.setdefault(int(m.group(1)), []).append(t)
+                        elif t.startswith("resolved"):
+                            # records of conflicts that are already resolved are not notices
+                            newnotes.setdefault(("stale", int(m.group(1))), []).append(t)
         if op[0] == "disc":
             arbiters.discard(int(op[1])); regcount.pop(int(op[1]), None)
         elif op[0] == "cmd":
@@ -132,6 +135,8 @@ def oracle(case, io, mo):
                 got = sorted(n.split(" ")[1] for n in newnotes.get(sid, []))
                 if got != want:
                     fails.append(("arbiter-resend", "step %d: new arbiter got notices for %s, unresolved are %s" % (i, got, want)))
+                if newnotes.get(("stale", sid)):
+                    fails.append(("resolved-conflict-resent", "step %d: the registering arbiter was sent %r (records of conflicts that are already resolved)" % (i, newnotes[("stale", sid)])))
             if w[0] in ("set", "set-safe") and sid == 1 and w[1] in ("k", "kk"):
                 key = w[1]
                 old = prev.get(key)
